@@ -691,6 +691,14 @@ def build_families(quick: bool, E: "Enc") -> dict:
     # would hide nothing, but the pair op for bare CRS is the bbox one with equal boxes)
     nums = [0, 1, 2, -1, 0.0, -0.0, 1.0, 0.5, True, 3]
     small = nums[: 7 if quick else 10]
+    # neighbours exactly one ulp apart (a token / hash / pickle that goes through rounded text must still tell
+    # them apart) at ordinary, tiny and 1e308 magnitudes; every family below gets members differing by 1 ulp
+    # in one float field
+    up = lambda v: math.nextafter(v, math.inf)  # noqa: E731
+    ulp_pairs = [(0.3, up(0.3)), (1 / 3, up(1 / 3)), (123456.789, up(123456.789)), (1e308, up(1e308)),
+                 (-2.5e-300, up(-2.5e-300)), (1.0, up(1.0))]
+    assert 0.1 + 0.2 == ulp_pairs[0][1]
+    ulps = [v for pr in (ulp_pairs if not quick else ulp_pairs[:4]) for v in pr]
 
     # --- XY family
     xs: list = []
@@ -698,6 +706,8 @@ def build_families(quick: bool, E: "Enc") -> dict:
         xs.append(xy_(x, y))
     for x, y in itertools.product([0, 1, 2, 3], repeat=2):
         xs += [Index2d(x, y), Shape2d(x, y)]
+    for v in ulps:
+        xs += [xy_(v, 1.0), xy_(1.0, v), Resolution(v, -1.0), Resolution(1.0, v)]
     for x, y in itertools.product([1, 1.0, 2, 0.5, -1, -0.0, 0], repeat=2):
         xs.append(Resolution(x, y))
     xs += [Resolution(1), Resolution(2.0), Resolution(-1)]
@@ -715,6 +725,10 @@ def build_families(quick: bool, E: "Enc") -> dict:
             bbs.append(geom.BoundingBox(*b, crs_vals[1]))
             if not quick:
                 bbs.append(geom.BoundingBox(*b, crs_vals[3]))
+        for v in ulps:
+            b = list(base)
+            b[k] = v
+            bbs.append(geom.BoundingBox(*b, crs_vals[1]))
     fams.append(Family("BoundingBox", "bbox", bbs, E.bbox))
 
     # --- GeoBox
@@ -726,6 +740,10 @@ def build_families(quick: bool, E: "Enc") -> dict:
         gbs.append(GeoBox(shp, Affine(*A0), crs_vals[1]))
     for k in range(6):
         for v in (0, -0.0, 1, -1, 10, 20, 0.5, 2):
+            a = list(A0)
+            a[k] = v
+            gbs.append(GeoBox((3, 4), Affine(*a), crs_vals[1]))
+        for v in ulps[:4] + ulps[6:8]:
             a = list(A0)
             a[k] = v
             gbs.append(GeoBox((3, 4), Affine(*a), crs_vals[1]))
@@ -750,6 +768,16 @@ def build_families(quick: bool, E: "Enc") -> dict:
     gcps += [GCPGeoBox((3, 4), m1), GCPGeoBox((4, 3), m1), GCPGeoBox((3, 4), m1, Affine.translation(1, 0)),
              GCPGeoBox((3, 4), m1, Affine.translation(-0.0, 0)), GCPGeoBox((3, 4), m1b, Affine.translation(1, 0)),
              gcps[0][0:2, 0:3], gcps[0][0:3, 0:4], gcps[1][0:2, 0:3]]
+    # one ulp in one GCP coordinate / one affine coefficient
+    wld3, pix3, wld4 = wld.copy(), pix.copy(), wld.copy()
+    wld3[0, 0], pix3[1, 0], wld4[2, 1] = up(wld3[0, 0]), up(pix3[1, 0]), 1e308
+    wld5 = wld4.copy()
+    wld5[2, 1] = up(1e308)
+    for w_, p_ in ((wld3, pix), (wld, pix3), (wld4, pix), (wld5, pix)):
+        gcps.append(GCPGeoBox((3, 4), GCPMapping(p_, w_, crs_vals[1])))
+    for a_, b_ in ulp_pairs[:4]:
+        gcps += [GCPGeoBox((3, 4), m1, Affine.translation(a_, 0)), GCPGeoBox((3, 4), m1, Affine.translation(b_, 0)),
+                 GCPGeoBox((3, 4), m1, Affine.scale(1.0, a_)), GCPGeoBox((3, 4), m1, Affine.scale(1.0, b_))]
     _ = m1.p2w, m1.approx   # lazy fields of the mapping
     gcps.append(GCPGeoBox((3, 4), m1))
     fams.append(Family("GCPGeoBox", "gcp", gcps, E.gcp))
@@ -776,7 +804,9 @@ def build_families(quick: bool, E: "Enc") -> dict:
     gb_small = [GeoBox((9, 10), Affine(*A0), crs_vals[1]), GeoBox((10, 10), Affine(*A0), crs_vals[1]),
                 GeoBox((10, 10), Affine(*A0), crs_vals[3]), GeoBox((10, 10), Affine(*A0), crs_vals[4]),
                 GeoBox((10, 10), Affine.translation(1, 0) * Affine(*A0), crs_vals[1]),
-                GeoBox((10, 9), Affine(*A0), None)]
+                GeoBox((10, 9), Affine(*A0), None),
+                GeoBox((10, 10), Affine.translation(0.3, 0) * Affine(*A0), crs_vals[1]),
+                GeoBox((10, 10), Affine.translation(up(0.3), 0) * Affine(*A0), crs_vals[1])]
     gc_small = [GCPGeoBox((10, 10), m1), GCPGeoBox((10, 10), m1b), GCPGeoBox((9, 10), m1), GCPGeoBox((10, 10), m2)]
     for g in gb_small + gc_small:
         ge = ("G " + E.gbox(g)) if isinstance(g, GeoBox) else ("P " + E.gcp(g))
@@ -795,6 +825,10 @@ def build_families(quick: bool, E: "Enc") -> dict:
 
     # --- Bin1D
     bins = [Bin1D(sz, o, d) for sz in (1, 1.0, 2, 0.5) for o in (0, 0.0, -0.0, 1, -1.5) for d in (1, -1)]
+    for v in ulps:
+        bins.append(Bin1D(1.0, v, 1))
+        if v > 0:
+            bins.append(Bin1D(v, 0.0, 1))
     fams.append(Family("Bin1D", "bin", bins, E.bin))
 
     # --- GridSpec (power-of-two resolutions: the float products are exact)
@@ -821,6 +855,13 @@ def build_families(quick: bool, E: "Enc") -> dict:
         add_gs(some_crs[0], (10, 10), res_opts[0], o_, False, False)
     for fx, fy in ((True, False), (False, True), (True, True)):
         add_gs(some_crs[0], (10, 10), res_opts[0], None, fx, fy)
+    # one ulp in the resolution (power-of-two shape keeps the product exact) and in the origin
+    for r in (Resolution(8.0, -8.0), Resolution(up(8.0), -8.0), Resolution(8.0, -up(8.0)), Resolution(0.5, -0.5),
+              Resolution(up(0.5), -0.5)):
+        add_gs(some_crs[0], (16, 16), r, None, False, False)
+    for v in ulps:
+        add_gs(some_crs[0], (10, 10), res_opts[0], xy_(v, 0.0), False, False)
+        add_gs(some_crs[0], (10, 10), res_opts[0], xy_(0.0, v), False, False)
     fams.append(Family("GridSpec", "gs", gs_items, lambda o: gs_enc[id(o)]))
 
     # --- Geometry
@@ -841,6 +882,18 @@ def build_families(quick: bool, E: "Enc") -> dict:
             geom.multiline([[(0, 0), (1, 1)], [(2, 2), (3, 3)]], crs_vals[1]),
             geom.multiline([[(0, 0), (1, 1), (2, 2)], [(3, 3), (4, 4)]], crs_vals[1]),
             geom.multiline([[(0, 0), (1, 1)], [(2, 2), (3, 3), (4, 4)]], crs_vals[1])]
+    # one ulp in one coordinate, for every kind of geometry
+    for a_, b_ in ulp_pairs:
+        for v in (a_, b_):
+            gms += [geom.point(v, 2, crs_vals[1]), geom.point(1, v, crs_vals[1]),
+                    geom.line([(0, 0), (v, 1)], crs_vals[1]),
+                    geom.polygon([(0, 0), (0, v), (1, 1), (0, 0)], crs_vals[1]),
+                    geom.multipoint([(0, 0), (1, v)], crs_vals[1])]
+        if abs(a_) < 1e300:
+            for v in (a_, b_):
+                gms += [geom.polygon([(0, 0), (0, 4), (4, 4), (0, 0)], crs_vals[1], [(v, 1), (0.5, 2), (1, 2), (v, 1)]),
+                        geom.multigeom([geom.point(1, v, crs_vals[1]), geom.line([(0, 0), (1, 1)], crs_vals[1])]),
+                        geom.Geometry(shapely.Point(1, 2, v), crs_vals[1])]
     # every shapely type reachable from the API: rings (.exterior/.interiors/.boundary), multi-geometries,
     # collections (multigeom, GeoBox.outline), empty geometries, 3-D coordinates
     poly_h = geom.polygon([(0, 0), (0, 4), (4, 4), (4, 0), (0, 0)], crs_vals[1], [(1, 1), (2, 1), (2, 2), (1, 1)])
